@@ -15,6 +15,7 @@ use crate::world::*;
 use generic_array::functional::FunctionalSequence;
 use generic_array::sequence::*;
 use generic_array::typenum::{Unsigned, U0, U1, U17, U2, U3, U5, U8};
+use generic_array::sequence::{Concat, Lengthen, Remove, Shorten, Split};
 use generic_array::{ArrayLength, GenericArray};
 
 fn infra<R>(f: impl FnOnce() -> R) -> R {
@@ -23,6 +24,8 @@ fn infra<R>(f: impl FnOnce() -> R) -> R {
 }
 
 pub const WIDE_PAD: usize = 4096;
+/// number of scenarios
+pub const N_WIDE: u32 = 11;
 const TAIL: u32 = 0x7A11_0000;
 
 #[repr(C)]
@@ -92,7 +95,7 @@ ops_group!(GWide);
 
 impl<'a, E: Elem> GWide<'a, E> {
     pub fn op_wide(&mut self, cx: &mut Cx, a: [u32; N_ARGS]) {
-        let which = a[0] % 9;
+        let which = a[0] % N_WIDE;
         let wi = (a[1] % 7) as usize;
         let n = WLENS[wi];
         let delta = a[2] % 3; // collect: 0 = exactly N, 1 = one short, 2 = one more
@@ -286,8 +289,21 @@ fn run_wide<E: Elem, N: ArrayLength>(which: u32, delta: u32, sched: (u32, u32), 
                 infra(|| seen.calls.push(i as u32));
                 mk::<E>(i as u32)
             });
-            let v = b.into_vec();
+            let mut v = b.into_vec();
             let _ = seqs(&v, 960);
+            if delta != 0 {
+                let _g = enter(Ctx::Work);
+                if delta == 1 { drop(v.pop()); } else { v.push(mk::<E>(n as u32)); }
+                let l = v.len();
+                if l != n {
+                    drop(_g);
+                    let ok = if delta == 2 { GenericArray::<Wide<E>, N>::try_from_boxed_slice(v.into_boxed_slice()).is_ok() } else { GenericArray::<Wide<E>, N>::try_from_vec(v).is_ok() };
+                    if ok {
+                        infra(|| seen.flags.push(("C15-wrong-length-accepted", format!("try_from_vec / try_from_boxed_slice::<{n}> accepted {l} larger-than-a-page elements"))));
+                    }
+                    return;
+                }
+            }
             match GenericArray::<Wide<E>, N>::try_from_vec(v) {
                 Ok(b2) => {
                     seen.result = seqs(b2.as_slice(), 960);
@@ -380,13 +396,101 @@ fn run_wide<E: Elem, N: ArrayLength>(which: u32, delta: u32, sched: (u32, u32), 
             // abandoned wherever the schedule left it
             let _ = seqs(it.as_slice(), 965);
         }
+        // length-changing sequence operations on larger-than-a-page elements (a fixed chain 3 -> 2 -> 1 -> 2 -> 3 -> 1+2 -> 3 -> 2 -> 1)
+        9 => {
+            seen.what = "swap_remove / remove / append / prepend / split / concat / pop";
+            let a: GenericArray<Wide<E>, U3> = GenericArray::generate(|i| {
+                let _g = enter(Ctx::Work);
+                ledger::tick(Seam::Closure);
+                mk::<E>(i as u32)
+            });
+            let k = (sched.0 % 3) as usize;
+            let (x, rest) = if sched.1 % 2 == 0 { a.swap_remove(k) } else { a.remove(k) };
+            x.look(966);
+            let _ = seqs(rest.as_slice(), 966);
+            let (y, rest1) = rest.remove(0);
+            y.look(966);
+            let b: GenericArray<Wide<E>, U2> = rest1.append(x);
+            let c: GenericArray<Wide<E>, U3> = b.prepend(y);
+            let _ = seqs(c.as_slice(), 966);
+            let (p, q): (GenericArray<Wide<E>, U1>, GenericArray<Wide<E>, U2>) = Split::split(c);
+            let _ = (seqs(p.as_slice(), 966), seqs(q.as_slice(), 966));
+            let r: GenericArray<Wide<E>, U3> = Concat::concat(p, q);
+            let (s, last) = r.pop_back();
+            last.look(966);
+            let (first, t) = s.pop_front();
+            first.look(966);
+            let _ = seqs(t.as_slice(), 966);
+        }
+        // map / zip to the unit type (zero-sized, no drop glue output) from elements of the run's own kind, owned and boxed
+        10 => {
+            seen.what = "map / zip to ()";
+            let mut made: Vec<u32> = infra(Vec::new);
+            let mut gen_e = |made: &mut Vec<u32>| -> GenericArray<E, N> {
+                GenericArray::<E, N>::generate(|_| {
+                    let _g = enter(Ctx::Work);
+                    ledger::tick(Seam::Closure);
+                    let e = E::make();
+                    let id = e.observe(967);
+                    infra(|| made.push(id));
+                    e
+                })
+            };
+            let a = gen_e(&mut made);
+            let b = Box::new(gen_e(&mut made));
+            let c = gen_e(&mut made);
+            let d = gen_e(&mut made);
+            let want: Vec<u32> = infra(|| made[..3 * n].to_vec());
+            seen.want_calls = Some(want);
+            let u: GenericArray<(), N> = a.map(|e| {
+                let _g = enter(Ctx::Work);
+                ledger::tick(Seam::Closure);
+                let id = e.observe(968);
+                infra(|| seen.calls.push(id));
+                drop(e);
+            });
+            let ub: Box<GenericArray<(), N>> = b.map(|e| {
+                let _g = enter(Ctx::Work);
+                ledger::tick(Seam::Closure);
+                let id = e.observe(968);
+                infra(|| seen.calls.push(id));
+                drop(e);
+            });
+            let uz: GenericArray<(), N> = c.zip(d, |x, y| {
+                let _g = enter(Ctx::Work);
+                ledger::tick(Seam::Closure);
+                let id = x.observe(968);
+                y.observe(968);
+                infra(|| seen.calls.push(id));
+                drop(y);
+                drop(x);
+            });
+            if u.len() != n || ub.len() != n || uz.len() != n {
+                fail("C08-result", format!("map / zip to () over {n} elements returned lengths {} / {} / {}", u.len(), ub.len(), uz.len()));
+            }
+        }
         // array -> Vec -> array, array -> Box<[T]> -> boxed array
         _ => {
             seen.what = "Vec::from, TryFrom<Vec>";
             let mut s0 = Seen { calls: infra(Vec::new), result: infra(Vec::new), want_calls: None, want_result: None, what: "", flags: infra(Vec::new) };
             let a = gen(&mut s0);
-            let v: Vec<Wide<E>> = a.into();
+            let mut v: Vec<Wide<E>> = a.into();
             let _ = seqs(&v, 960);
+            // a source one shorter / one longer must be rejected, with everything it held released
+            if delta != 0 {
+                let _g = enter(Ctx::Work);
+                if delta == 1 { drop(v.pop()); } else { v.push(mk::<E>(n as u32)); }
+                let l = v.len();
+                if l != n {
+                    drop(_g);
+                    let bs = delta == 2;
+                    let ok = if bs { GenericArray::<Wide<E>, N>::try_from(v.into_boxed_slice()).is_ok() } else { GenericArray::<Wide<E>, N>::try_from(v).is_ok() };
+                    if ok {
+                        infra(|| seen.flags.push(("C15-wrong-length-accepted", format!("TryFrom<Vec / Box<[T]>>::<{n}> accepted {l} larger-than-a-page elements"))));
+                    }
+                    return;
+                }
+            }
             match GenericArray::<Wide<E>, N>::try_from(v) {
                 Ok(a2) => {
                     seen.result = seqs(a2.as_slice(), 960);
